@@ -82,7 +82,7 @@ def oracle(run, prog, an, tlog, clog, taint):
         bad = sorted((vd for vd in seen if not T.covers(Tset, vd)), key=repr)
         if bad:
             st['fail'] += 1
-            cls = next((c for c in R.CLASS_ORDER if c in classes), None)
+            cls = next((c for c in R.CLASS_ORDER if c in classes), None) or (sorted(classes)[0] if classes else None)
             run.fail('run-time type not in the inferred TYPES set',
                      {'program': prog.source, 'inputs': [list(i) for i in prog.inputs], 'arg_types': {k[1]: sorted(v) for k, v in prog.arg_types.items()},
                       'node_id': sid, 'expr': ast.unparse(node) if not isinstance(node, ast.arg) else node.arg,
@@ -98,7 +98,7 @@ def oracle(run, prog, an, tlog, clog, taint):
         bad = sorted((vd for vd in seen if not T.covers(Tset, vd)), key=repr)
         if bad:
             st['fail'] += 1
-            cls = next((c for c in R.CLASS_ORDER if c in classes), None)
+            cls = next((c for c in R.CLASS_ORDER if c in classes), None) or (sorted(classes)[0] if classes else None)
             run.fail('CLOSURE_TYPES do not cover the type of a captured variable at a call',
                      {'program': prog.source, 'inputs': [list(i) for i in prog.inputs], 'function': fi.fdef.name, 'name': name,
                       'inferred': sorted(map(repr, Tset)), 'runtime': [repr(b) for b in bad], 'tainted_by': sorted(classes),
